@@ -110,6 +110,25 @@ ERROR_BODIES = {
 ERROR_REASONS = {'': None, 'braces': 'Bad {request}', 'percent': 'Not 100% %s'}
 
 
+BIG = 10 ** 400
+
+
+def fr(v):
+    """lib.frac for measurement values, which may be inf / -inf / nan (a harness printed 1e999 or nan): they cross
+    to the model, which only moves values around, as three rationals no finite double can equal"""
+    if isinstance(v, float) and v != v:
+        return '%d/1' % (BIG * 10)
+    if v == float('inf'):
+        return '%d/1' % BIG
+    if v == float('-inf'):
+        return '%d/1' % -BIG
+    return lib.frac(v)
+
+
+def fraction(v):
+    return lib.unfrac(fr(v))
+
+
 def raise_for(kind, url, status=None, body=b'', reason=None):
     if kind == 'refused':
         raise urllib.error.URLError(ConnectionRefusedError(111, 'Connection refused'))
@@ -436,19 +455,19 @@ def decode_body(body, runs):
                 is_v2 = False if is_v2 is None else is_v2
                 ms = []
                 for m in d['m']:
-                    ms.append([lib.frac(m['v']), m['c']])
+                    ms.append([fr(m['v']), m['c']])
                     cu = table[m['c']] if 0 <= m['c'] < len(table) else (None, None)
-                    flat.append((ridx, d['in'], d['it'], cu[0], cu[1], Fraction(m['v'])))
+                    flat.append((ridx, d['in'], d['it'], cu[0], cu[1], fraction(m['v'])))
                 dps.append({'in': d['in'], 'it': d['it'], 'm': ms})
             else:              # v2
                 is_v2 = True
                 cols = []
                 for ci, col in enumerate(d['m']):
-                    cols.append([None if v is None else lib.frac(v) for v in col])
+                    cols.append([None if v is None else fr(v) for v in col])
                     cu = table[ci] if ci < len(table) else (None, None)
                     for p, v in enumerate(col):
                         if v is not None:
-                            flat.append((ridx, d['in'], p + 1, cu[0], cu[1], Fraction(v)))
+                            flat.append((ridx, d['in'], p + 1, cu[0], cu[1], fraction(v)))
                 dps.append({'in': d['in'], 'm': cols})
         wire.append({'run': ridx, 'd': dps})
     return {'wire': {'data': wire, 'criteria': [list(t) for t in table]}, 'flat': sorted(flat, key=repr),
